@@ -392,6 +392,83 @@ func harnesses() []harness {
 				return strings.Join(append(append(rw.lines, rr.lines...), re.lines...), "; ")
 			}
 		}},
+		{"H8 background pruning vs a pinned version: writer(open async tree, Export v2, DeleteVersionsTo(2), read the export to its end, Close export, SetCommitting, Set, SaveVersion, UnsetCommitting, Close tree) || export goroutine || pruner", func(cfg c06Cfg) ([]func(), func() string) {
+			base := prelude(cfg)
+			st := storeOf[base]
+			var rw rec
+			writer := func() {
+				t2 := iavl.NewMutableTree(st, cfg.Cache, !cfg.Fast, iavl.NewNopLogger(), iavl.AsyncPruningOption(true))
+				if _, err := t2.Load(); err != nil {
+					rw.add("writer: Load: %v", err)
+					return
+				}
+				it2, err := t2.GetImmutable(2)
+				if err != nil {
+					rw.add("writer: GetImmutable(2): %v", err)
+					return
+				}
+				e, err := it2.Export()
+				if err != nil {
+					rw.add("writer: Export(v2): %v", err)
+					return
+				}
+				// version 2 is pinned from here until e.Close()
+				if err := t2.DeleteVersionsTo(2); err != nil {
+					observe("request-rejected")
+				}
+				nodes := 0
+				var nextErr error
+				for {
+					_, err := e.Next()
+					if err != nil {
+						if !errors.Is(err, iavl.ErrorExportDone) {
+							nextErr = err
+						}
+						break
+					}
+					nodes++
+				}
+				if nextErr != nil || nodes != 7 {
+					rw.add("export of version 2, pinned before its deletion was requested, delivered %d of 7 nodes (error: %v)", nodes, nextErr)
+				}
+				// still pinned: the pinned version and everything above it reads back completely
+				var r2 rec
+				epilogue(&r2, t2, map[int64]map[string]string{2: c06Contents[2], 3: c06Contents[3]})
+				for _, l := range r2.lines {
+					rw.add("while version 2 is still pinned: %s", l)
+				}
+				e.Close()
+				// the pin is gone: the pending request may now be carried out, concurrently with the next commit
+				t2.SetCommitting()
+				if _, err := t2.Set([]byte("a"), []byte("7")); err != nil {
+					rw.add("writer: Set(a): %v", err)
+				}
+				if _, v, err := t2.SaveVersion(); err != nil || v != 4 {
+					rw.add("writer: SaveVersion = %d, %v", v, err)
+				}
+				t2.UnsetCommitting()
+				if err := t2.Close(); err != nil {
+					rw.add("writer: Close: %v", err)
+				}
+			}
+			return []func(){writer}, func() string {
+				var re rec
+				t3 := iavl.NewMutableTree(st, 0, !cfg.Fast, iavl.NewNopLogger())
+				if _, err := t3.Load(); err != nil {
+					re.add("epilogue: Load on the store after Close: %v", err)
+				} else {
+					want := map[int64]map[string]string{3: c06Contents[3], 4: {"a": "7", "b": "2", "c": "3"}}
+					for _, v := range t3.AvailableVersions() {
+						if v == 1 || v == 2 {
+							want[int64(v)] = c06Contents[int64(v)]
+						}
+					}
+					observe("versions-after-close=%v", t3.AvailableVersions())
+					epilogue(&re, t3, want)
+				}
+				return strings.Join(append(rw.lines, re.lines...), "; ")
+			}
+		}},
 		{"H6 reader1 || reader2 on the same held version (shared cached nodes)", func(cfg c06Cfg) ([]func(), func() string) {
 			t := prelude(cfg)
 			t3, _ := t.GetImmutable(3)
@@ -651,12 +728,16 @@ func init() {
 				skipped = append(skipped, hs[hi].name+": the export.go rewrite did not apply to this tree")
 				continue
 			}
+			if strings.HasPrefix(hs[hi].name, "H8") && (os.Getenv("VERIF_H4") != "1" || os.Getenv("VERIF_H5") != "1") {
+				skipped = append(skipped, hs[hi].name+": the export.go / nodedb.go rewrites did not apply to this tree")
+				continue
+			}
 			if strings.HasPrefix(hs[hi].name, "H5") && os.Getenv("VERIF_H5") != "1" {
 				skipped = append(skipped, hs[hi].name+": the nodedb.go rewrite did not apply to this tree")
 				continue
 			}
 			for ci := range cfgs {
-				three := strings.HasPrefix(hs[hi].name, "H3") || strings.HasPrefix(hs[hi].name, "H4") || strings.HasPrefix(hs[hi].name, "H5")
+				three := strings.HasPrefix(hs[hi].name, "H3") || strings.HasPrefix(hs[hi].name, "H4") || strings.HasPrefix(hs[hi].name, "H5") || strings.HasPrefix(hs[hi].name, "H8")
 				if c.Tier == "quick" && three && ci != 1 && ci != 2 {
 					continue // quick: the 3-thread harnesses run under two configurations (cache 100 + index, cache 0 without)
 				}
@@ -686,7 +767,7 @@ func init() {
 				bin = raceBin
 				b = bound - 1
 			}
-			three := strings.HasPrefix(hs[j.hi].name, "H3") || strings.HasPrefix(hs[j.hi].name, "H4") || strings.HasPrefix(hs[j.hi].name, "H5")
+			three := strings.HasPrefix(hs[j.hi].name, "H3") || strings.HasPrefix(hs[j.hi].name, "H4") || strings.HasPrefix(hs[j.hi].name, "H5") || strings.HasPrefix(hs[j.hi].name, "H8")
 			if three {
 				b-- // three threads: one preemption less
 			}
@@ -829,7 +910,7 @@ func init() {
 			"explanation_c06": "every schedule (choice sequence at lock acquisitions and storage calls) with at most the stated number of preemptions is executed on the real code; the -race build runs the same enumeration with the race detector active inside each schedule (the scheduler's hand-off uses raw futex calls from norace code and adds no happens-before edge)"}
 		res.Assumptions = []string{
 			"scheduling points: every Lock/RLock of the sync primitives used by iavl (rebuilt against the shim) and every storage call; code between two points runs atomically in the explorer (races inside such blocks are the race detector's job)",
-			"harnesses H1-H7: 2-3 threads, <= 3 operations each, one writer; H4 (export pinning vs pruning: the exporter goroutine and its channel run under the scheduler) and H5 (background pruning loop, SetCommitting/UnsetCommitting) use the rewritten export.go / nodedb.go of the sched build and are skipped (recorded in skipped_harnesses) if the rewrite does not apply to the current tree",
+			"harnesses H1-H8: 2-3 threads, <= 3 operations each, one writer; H4 (export pinning vs pruning: the exporter goroutine and its channel run under the scheduler) and H5 (background pruning loop, SetCommitting/UnsetCommitting) use the rewritten export.go / nodedb.go of the sched build and are skipped (recorded in skipped_harnesses) if the rewrite does not apply to the current tree",
 			"the storage is check/vstore (MemDB-like locking, snapshot iterators)",
 		}
 		return res
